@@ -200,16 +200,21 @@ def observe(tier="quick", only=None):
                     reqs.append("cell O,%s,%s,%s,%s" % (op, l, r, f))
                     index.append((row, p, "cell"))
     # the first ID-typed argument of every built-in that has one (and the target of the add statement) drawn from every
-    # identifier of ID_IDENTS, in each of the nine scopes; STRICT: the simulator must not raise any error
+    # identifier of ID_IDENTS, in each of the nine scopes.  The verdict of a cell is relative to the BASELINE cell of the
+    # same function and scope, whose identifier is of the correct kind ("@": harness tIDArg): see idarg_verdict
     o.idargs = []
     idrows = [(f["name"], i) for f in funcs for i, sg in enumerate(f["sigs"]) if "ID" in sg.split(",")] + [("stmt:add", 0)]
     for fn, i in idrows:
-        row = {"fn": fn, "sig": i, "lint": [None] * (9 * len(ID_IDENTS)), "interp": [None] * (9 * len(ID_IDENTS))}
+        row = {"fn": fn, "sig": i, "lint": [None] * (9 * len(ID_IDENTS)), "interp": [None] * (9 * len(ID_IDENTS)),
+               "msg": [None] * (9 * len(ID_IDENTS)), "base": [None] * 9}
         o.idargs.append(row)
+        for sc in range(9):
+            reqs.append("cellm A,%s,%d,%s,%d" % (fn, i, "req.http.X-Verif-One" if fn == "stmt:add" else "@", 1 << sc))
+            index.append((row, sc, "idbase"))
         for k, idn in enumerate(ID_IDENTS):
             for sc in range(9):
-                reqs.append("cell A,%s,%d,%s,%d" % (fn, i, idn, 1 << sc))
-                index.append((row, 9 * k + sc, "cell"))
+                reqs.append("cellm A,%s,%d,%s,%d" % (fn, i, idn, 1 << sc))
+                index.append((row, 9 * k + sc, "idcell"))
     # literal spellings / header sub-field as right operand
     o.variants = []
     for op in ASSIGN_OPS + CMP_OPS:
@@ -307,6 +312,21 @@ def observe(tier="quick", only=None):
     reps = parallel_batch(reqs)
     for req, (row, p, kind), rep in zip(reqs, index, reps):
         f = (rep or "").split()
+        if kind in ("idbase", "idcell"):
+            head, _, msg = (rep or "").partition(" | ")
+            h = head.split()
+            if len(h) == 3 and h[0] in ("A", "R"):
+                if kind == "idbase":
+                    row["base"][p] = (h[1], msg)
+                else:
+                    o.cells += 1
+                    row["lint"][p] = h[0] == "A"
+                    row["interp"][p] = h[1]
+                    row["msg"][p] = msg
+                    o.programs_run += int(h[2])
+            else:
+                o.bad.append((req, rep))
+            continue
         if kind == "wide":
             if len(f) == 2 and f[0] == "bits":
                 row["bits"] = int(f[1])
@@ -378,6 +398,56 @@ def fresh_process_check(rng, n_random=40):
     return len(sample), [(c, a, b) for c, a, b in zip(sample, fresh, long_lived) if a != b]
 
 
+def idarg_where(b):
+    """every cell of an identifier-argument row: identifiers grouped by the scopes in which the cell is in the row"""
+    by = {}
+    for p0 in positions(b, 9 * len(ID_IDENTS)):
+        by.setdefault(ID_IDENTS[p0 // 9], []).append(SCOPES[p0 % 9])
+    groups = {}
+    for i, sc in by.items():
+        groups.setdefault(",".join(sc) if len(sc) < 9 else "every scope", []).append(i)
+    return "; ".join("%s in %s" % (" / ".join(ids), sc) for sc, ids in groups.items())
+
+
+def idarg_undecided(o):
+    """the accepted cells whose baseline cell fails too, per function: which identifiers in which scopes, and how the
+    baseline fails there (evidence only)"""
+    out = []
+    for r in o.idargs:
+        und = [p for p in range(len(r["interp"])) if r["lint"][p] and idarg_verdict(r, p).startswith("undecided")]
+        if und:
+            scs = sorted({p % 9 for p in und})
+            out.append({"function": r["fn"], "signature": r["sig"], "cells": len(und),
+                        "identifiers": idarg_where(sum(1 << p for p in und)),
+                        "baseline": {SCOPES[sc]: r["base"][sc][1] for sc in scs}})
+    return out
+
+
+def _norm_msg(msg):
+    """a simulator message without the parts that name the identifier, the scope or a position"""
+    m = re.sub(r"line: \d+, position: \d+", "", msg or "")
+    for w in sorted(ID_IDENTS + ["X-Verif-One", "beresp", "resp"], key=len, reverse=True):
+        m = m.replace(w, "<id>")
+    return re.sub(r"\b(recv|hash|hit|miss|pass|fetch|error|deliver|log)\b", "<scope>", m, flags=re.I)
+
+
+def idarg_verdict(row, p):
+    """'ok'                  the cell runs;
+    'counts'                 it raises an error that is attributable to the identifier: the baseline cell of the same
+                             function and scope (same call, identifier of the correct kind) runs clean - or the cell
+                             crashes;
+    'undecided-same' / 'undecided-different'
+                             the baseline cell fails too (with the same message up to the identifier / another one), e.g.
+                             because no object of the kind exists in the scope: nothing about the identifier can be
+                             concluded from this cell; reported in the evidence, never as a finding"""
+    if row["interp"][p] == "ok":
+        return "ok"
+    base = row["base"][p % 9]
+    if base is None or base[0] == "ok" or row["interp"][p] == "crash":
+        return "counts"
+    return "undecided-same" if _norm_msg(base[1]) == _norm_msg(row["msg"][p]) else "undecided-different"
+
+
 def show(spec):
     return V.run_batch(impl(), ["show " + spec])[0]
 
@@ -441,9 +511,10 @@ def write_obs(o):
     _write(os.path.join(gen, "ObsStmts.v"), "".join(b))
     b = [HEADER]
     b.append("(* the first ID-typed argument drawn from every identifier of idarg_idents: (function or stmt:add, signature,\n"
-             "   linter accepts, simulator raises NO error): bit 9 * identifier index + scope index *)\n")
+             "   linter accepts, the simulator raises no error ATTRIBUTABLE TO THE IDENTIFIER: the cell runs, or the baseline cell -\n"
+             "   the same call with an identifier of the correct kind in the same scope - fails too): bit 9 * identifier index + scope index *)\n")
     b.append("Definition obs_idargs : list (string * N * N * N) := [\n")
-    b.append(";\n".join("(%s, %d, %d, %d)" % (cs(r["fn"]), r["sig"], lint_bits(r), bits([x == "ok" for x in r["interp"]])) for r in o.idargs))
+    b.append(";\n".join("(%s, %d, %d, %d)" % (cs(r["fn"]), r["sig"], lint_bits(r), bits([idarg_verdict(r, p) != "counts" for p in range(len(r["interp"]))])) for r in o.idargs))
     b.append("].\n")
     _write(os.path.join(gen, "ObsIdArgs.v"), "".join(b))
     b = [HEADER]
@@ -615,7 +686,7 @@ WHAT = {
     "stmt-model": "statement guard model differs from the real linter",
     "op-model": "operator model (Model/LintOps.v) differs from the real linter",
     "op-interp-model": "simulator decision model (Model/InterpAssign.v) differs from the real simulator",
-    "idarg-interp": "accepted by the linter, the simulator raises an error",
+    "idarg-interp": "accepted by the linter, the simulator raises an error although the same call with an identifier of the correct kind runs in the same scope",
     "opv-lint": "the linter treats this spelling of the value differently from the plain literal / header of the same type",
     "opv-interp": "the simulator treats this spelling of the value differently from the plain literal / header of the same type",
     "opl-model": "operator model differs from the real linter (left operand provenance)",
@@ -636,11 +707,7 @@ WHAT = {
 def describe(row):
     k, n, a, b = row["kind"], row["name"], row["at"], row["bits"]
     if k.startswith("idarg-"):
-        by = {}
-        for p0 in positions(b, 9 * len(ID_IDENTS)):
-            by.setdefault(ID_IDENTS[p0 // 9], []).append(SCOPES[p0 % 9])
-        where = "; ".join("%s in %s" % (i, ",".join(sc) if len(sc) < 9 else "every scope") for i, sc in by.items())
-        return "%s (signature %s) with the identifier argument %s: %s" % (n, a, where, WHAT.get(k, k))
+        return "%s (signature %s) with the first identifier argument %s: %s" % (n, a, idarg_where(b), WHAT.get(k, k))
     if k.startswith("opv-"):
         return "%s %s %s [%s]: %s" % (a, n, "<value>", ", ".join(VARIANTS[p][0] for p in positions(b, len(VARIANTS))), WHAT.get(k, k))
     if k.startswith("op-") or k.startswith("opl-"):
